@@ -80,7 +80,10 @@ impl TypeResolver {
                 continue;
             }
             out.push(c);
-            if !(c.is_alphanumeric() || c == '_') {
+            // Everything except ASCII punctuation and white space belongs to a path segment:
+            // identifiers may contain characters that are neither letters nor digits
+            // (`col·lecció`, combining accents, `a‿b`).
+            if (c.is_ascii_punctuation() && c != '_') || c.is_whitespace() {
                 ident_start = out.len();
             }
         }
